@@ -118,6 +118,15 @@ def gen_cases(tier, seed):
                   "bigendian": False, "identity_window": True,
                   "vseed": rnd.randrange(2 ** 32)})
         cases.append(c)
+    # directed: 64-bit labels above 2^53 stored and kept as uint64 (no arithmetic is needed:
+    # every label comes out as it went in, whichever way the file is loaded)
+    for k in range(4):
+        c = dict(cases[10 + k])
+        c.update({"layout": "3d" if k < 3 else "4d", "stored": "uint64", "target": "uint64",
+                  "mm": None, "scal": None, "ignore": False, "mmap": k % 2 == 1,
+                  "encoding": "raw" if k < 2 else "compressed_segmentation",
+                  "big_labels": True, "vseed": rnd.randrange(2 ** 32)})
+        cases.append(c)
     # directed: chunks of more than 2^20 voxels (vectorised integer expectation)
     for k in range(3 if tier == "quick" else 12):
         cases.append({"huge": True, "stored": ["uint8", "int16", "uint16"][k % 3],
@@ -158,7 +167,9 @@ def _make_volume(np, nibabel, case, path):
             lo, hi = max(ii.min, -40000), min(ii.max, 70000)
             span = hi - lo + 1
             raw = ((idx * 7919 + g.integers(0, span)) % span + lo).astype(dt)
-            if dt.itemsize == 8 and g.random() < 0.3:
+            if dt.itemsize == 8 and case.get("big_labels"):
+                raw = raw + dt.type(2 ** 53)
+            elif dt.itemsize == 8 and g.random() < 0.3:
                 raw = raw + (dt.type(2 ** 53) if g.random() < 0.5 else dt.type(2 ** 40))
     hdr = nibabel.Nifti1Header(endianness=">" if case["bigendian"] else "<")
     hdr.set_data_dtype(raw.dtype)
@@ -194,7 +205,8 @@ def _expected(np, raw_vals, slope, inter, case, out):
     for r in raw_vals:
         rs = r * s
         v = rs + t
-        if st_exact and exact64(rs) and exact64(v):
+        if (st_exact and exact64(rs) and exact64(v)) or (s == 1 and t == 0):
+            # (an identity mapping needs no arithmetic at all)
             tol = Fraction(0)
         else:
             tol = Fraction(1, 2 ** 46) * (abs(rs) + abs(t) + 1)
@@ -285,6 +297,7 @@ def run_case(case):
            "stored": {case["stored"] if case["layout"] != "rgb" else "rgb": 1},
            "targets": {case["target"]: 1}, "storage": {case["storage"]: 1},
            "layouts": {case["layout"]: 1}, "cli_runs": 0, "mmap": int(case["mmap"]),
+           "uint64_labels_above_2_53_kept_as_uint64": int(bool(case.get("big_labels"))),
            "header_scaling_with_minmax": 0, "ignore_scaling": int(case["ignore"]),
            "partial_border_chunk": 0, "single_voxel_axis": int(1 in case["shape"]),
            "tolerance_used": 0, "exact_demanded": 0, "bigendian": int(case["bigendian"]),
@@ -439,7 +452,10 @@ def run_case(case):
                     if c_hi > c_lo:
                         obs["tolerance_used"] += 1
                     ok = c_lo <= int(gv) <= c_hi
-                if out == "uint64" and abs(val) > 2 ** 53:
+                if out == "uint64" and abs(val) > 2 ** 53 and not (
+                        case["stored"] == "uint64" and case["mm"] is None
+                        and (not case["scal"] or case["ignore"])):
+                    # (uint64 voxels stored as they are need no arithmetic: exact)
                     known = KF_U64
             else:
                 fv = float(val)
@@ -489,4 +505,6 @@ def gates(obs, tier):
         "exact_results_demanded": obs.get("exact_demanded", 0) > 1000,
         "axes_longer_than_128_voxels": obs.get("long_axis", 0) > 5,
         "chunks_beyond_2_20_voxels": obs.get("huge_chunks", 0) > 0,
+        "uint64_labels_above_2_53_kept_as_uint64": obs.get(
+            "uint64_labels_above_2_53_kept_as_uint64", 0) >= 4,
     }
